@@ -1,6 +1,6 @@
 (* C09 — pairwise local alignment is valid, self-consistent and optimal.
    Only property theorems; proofs are in Proofs/SWProofs.v. *)
-From Coq Require Import List Bool NArith ZArith.
+From Coq Require Import List Bool NArith ZArith Lia.
 From Coq.Strings Require Import Byte.
 Import ListNotations.
 From GA.Base Require Import Bytes.
@@ -202,6 +202,14 @@ Theorem C09_aligner_score_is_attained :
     score_cols (sub_of sc (pick_matrix s1 s2)) (sc_open sc) (sc_extend sc) r1 r2 0 = r_score r.
 Proof. exact align_pair_score_attained. Qed.
 Print Assumptions C09_aligner_score_is_attained.
+
+(* non-vacuity of the three theorems above: the default scheme of goalign sw (open -10, extend -1/2, doubled) meets their
+   hypotheses, the aligner succeeds on a pair with two indels and reports a positive score *)
+Example C09_optimal_nonvacuous :
+  let sc := mkscheme true 0 0 (-20) (-1) in
+  sc_open sc <= sc_extend sc /\ sc_extend sc < 0 /\ NEG <= sc_open sc /\
+  option_map r_score (align_pair false sc [x41; x43; x47; x54; x54; x41; x43; x47; x54; x41; x43] [x41; x43; x47; x54; x41; x43; x47; x47; x54; x41; x43]) = Some 60.
+Proof. cbn [sc_open sc_extend]. unfold NEG. split; [lia|]. split; [lia|]. split; [lia|]. vm_compute. reflexivity. Qed.
 
 (* What remains a statement: the rows RETURNED by the trace-back score exactly the reported score (they are valid:
    C09_aligner_returns_valid_alignment); it is proved on the finite domains above and judged per case by Corr/C09.v. *)
